@@ -190,7 +190,10 @@ def xspecStep (st : SpecSt) : XOp → XObs → Option SpecSt
         -- … and the restore must install what the slot held when it was entered
         | some st1 => restoreJudge st1 sv f after
       else none
-  | .restoreCb _ _ _, .plain .nofile => some st
+  | .restoreCb k _ _, .plain .nofile =>
+    match lookupS k st.saved with
+    | none => some st
+    | some _ => none
   | .inTx t pre post, .inTx a m b =>
     if a.length = pre.length ∧ b.length = post.length then
       match specRun st (pre.map RoAct.toOp) a with
